@@ -32,6 +32,8 @@ def _rec(client_cls):
 # spec key -> (ir namespace, {namespace name: generated module}, recording client class)
 SPECS = {
     'cat': (base.API.namespaces['cat'], base.MODS, _rec(fixtures.module('catgen', 'catclient').CatClient)),
+    'catr': (base.API.namespaces['catr'], dict(base.MODS, catr=fixtures.module('catgen', 'catr')),
+             _rec(fixtures.module('catgen', 'catclient').CatClient)),
     'cl2': (fixtures.api_for('client2').namespaces['class'], {'class': fixtures.module('cl2gen', 'class_')},
             _rec(fixtures.module('cl2gen', 'cl2client').Cl2Client)),
 }
